@@ -629,3 +629,17 @@ func hintAllows(h map[string]bool, l string) bool {
 	}
 	return false
 }
+
+// declareSpecFun declares the SMT function of a body-less specification function (by name).
+func (vc *FuncVC) declareSpecFun(w *World, name string) {
+	fd := w.Specs.Funs[name]
+	if fd == nil {
+		panic("unknown specification function " + name)
+	}
+	fctx := w.ctxFor(fd.pkgOf(), fd.File)
+	var sorts []string
+	for _, p := range fd.Params {
+		sorts = append(sorts, w.resolveType(p.Type, fctx).Sort(w.S))
+	}
+	vc.declareFun(fd.Name, sorts, w.resolveType(fd.Ret, fctx).Sort(w.S))
+}
